@@ -29,8 +29,9 @@ def emit_behaviours(chk, steps, simulate=0, depth=0, maxgens=1):
         args = ["-simulate", f"num={simulate}", "-depth", str(steps + 1), "-seed", str(chk.seed + 17)]
     res = tlc.run("Emit_JtProgram", cfg, wd, workers=1 if simulate else 4, args=args, timeout=1800, heap="8g")
     behs = []
-    for m in re.finditer(r'<<"BEH", ("(?:[^"\\]|\\.)*")>>', res.out):
-        behs.append(json.loads(json.loads(m.group(1))))
+    for v in res.printed():
+        if isinstance(v, list) and len(v) == 2 and v[0] == "BEH":
+            behs.append(json.loads(v[1]))
     if not behs:
         raise MachineryFailure("no behaviours emitted:\n" + res.tail())
     if not simulate:
